@@ -25,10 +25,10 @@ META = {
     "explanation": "",
     "assumptions": ["documents follow one schema (a path is an object in every document that has it)",
                     "pointer patterns select object members, not array elements (array elements cannot be deleted by the merge)",
-                    "jsonpatch/jsonpointer libraries are trusted for applying a patch"],
+                    "jsonpatch/jsonpointer libraries are trusted for APPLYING a patch (not for making one)", "string hash seeds 0..3 (quick) / 0..7 (thorough) for the patch round trip, 0 and 2 for chains, 0 elsewhere"],
     "outside": ["pointer patterns that index into arrays", "documents outside the schema", "safe ACLs (acl_safe)"],
-    "bounds": {"quick": "patch: 128x128 documents (arrays up to 4 elements incl. permutations); fragment: 64 old x 32 fragments x 24 pointer lists",
-               "thorough": "patch: 972x972; fragment: 128 x 64 x 90 pointer lists"},
+    "bounds": {"quick": "patch: 128x128 documents (arrays up to 4 elements incl. permutations) under 4 hash seeds; fragment: 64 old x 32 fragments x 24 pointer lists",
+               "thorough": "patch: 648x648 under 8 hash seeds; fragment: 128 x 64 x 90 pointer lists"},
 }
 
 # ---------------------------------------------------------------- RefJson
